@@ -238,13 +238,24 @@ def encode(regs, column, polys, col_ok=True):
     return enc
 
 
-def real_internal(values, mask, conn8):
-    """(regions, column, polygons) from the internals (no xarray), values 2-D"""
+def real_internal(values, mask, conn8, layout="C", mlayout="C"):
+    """(regions, column, polygons) from the internals (no xarray), values 2-D (logical, row-major);
+    `_polygonize_numpy` gets the same values under the memory layouts `layout` / `mlayout`"""
     from xrspatial.experimental.polygonize import _calculate_regions, _polygonize_numpy
     ny, nx = values.shape
     regs = _calculate_regions(values.ravel(), None if mask is None else mask.ravel(), conn8, nx, ny)
-    column, polys = _polygonize_numpy(values, mask, conn8, None)
+    column, polys = _polygonize_numpy(G.lay(values, layout), None if mask is None else G.lay(mask, mlayout), conn8, None)
     return regs, column, polys
+
+
+# memory layouts of the enumerated rasters: chosen by a multiplicative hash of the raster number, so that the
+# layout is not correlated with the first cells of the raster (no read-only: one numba specialisation less)
+ENUM_LAYOUTS = ["C", "F", "strided", "neg", "T", "stridedF", "negrow", "C"]
+
+
+def enum_layouts(t):
+    x = (t * 2654435761 + 12345) & 0xFFFFFFFF
+    return ENUM_LAYOUTS[(x >> 13) % len(ENUM_LAYOUTS)], ENUM_LAYOUTS[(x >> 21) % len(ENUM_LAYOUTS)]
 
 
 # ---------------------------------------------------------------- enumeration
@@ -280,6 +291,7 @@ def run_enum_stream(r, plan):
                 for t0 in range(0, total, step):
                     jobs.append((alphabet, h, w, conn, t0, min(step, total - t0)))
     drv = Driver()
+    lay_hist = {}
 
     def model(job):
         alphabet, h, w, conn, t0, cnt = job
@@ -293,28 +305,30 @@ def run_enum_stream(r, plan):
             nfail = ndis = 0
             for dt in range(cnt):
                 values, mask = enum_arrays(h, w, alphabet, t0 + dt)
+                lay_, mlay_ = enum_layouts(t0 + dt)
+                c = dict(kind="enum", rows=h, cols=w, conn=conn, alphabet=alphabet, t=t0 + dt, tag="enum", layout=lay_, mlayout=mlay_)
                 try:
-                    with guard(r, dict(kind="enum", rows=h, cols=w, conn=conn, alphabet=alphabet, t=t0 + dt, tag="enum")):
-                        regs, column, polys = real_internal(values, mask, conn == 8)
+                    with guard(r, c):
+                        regs, column, polys = real_internal(values, mask, conn == 8, lay_, mlay_)
                     enc = encode(regs, column, polys)
                 except Exception as ex_:  # noqa: BLE001 -- any crash of the real code on a valid raster is a finding
-                    c = dict(kind="enum", rows=h, cols=w, conn=conn, alphabet=alphabet, t=t0 + dt, tag="enum")
                     r.fail("polygonize:raises", f"raised {type(ex_).__name__}: {ex_}", c)
                     continue
                 code = _oracle(np.array(enc, dtype=np.int64), values.astype(np.float64), ones if mask is None else mask, conn == 8)
                 if code and nfail < 3:
                     nfail += 1
-                    c = dict(kind="enum", rows=h, cols=w, conn=conn, alphabet=alphabet, t=t0 + dt, tag="enum")
-                    r.fail("polygonize:lossless", CODES[int(code)] + f" (connectivity={conn})", c)
+                    r.fail("polygonize:lossless", CODES[int(code)] + f" (connectivity={conn}, raster layout={lay_}, mask layout={mlay_})", c)
                 if ",".join(map(str, enc)) != mo[dt] and ndis < 3:
                     ndis += 1
-                    c = dict(kind="enum", rows=h, cols=w, conn=conn, alphabet=alphabet, t=t0 + dt, tag="enum")
                     r.disagree("enum", c, ",".join(map(str, enc))[:400], mo[dt][:400])
+                lay_hist[lay_] = lay_hist.get(lay_, 0) + 1
             r.evaluations += cnt
             r.tag(f"enum:k{len(alphabet)}{'m' if 'm' in alphabet else ''}:cells{h * w}", cnt)
             r.nontrivial.extra += (cnt - (len(alphabet) if t0 == 0 else 0)) if h * w >= 2 else 0
             r.extra["enum_rasters"] = r.extra.get("enum_rasters", 0) + cnt
     r.extra["enum_plan"] = [dict(alphabet=a, max_cells=m) for a, m in plan]
+    for k_, v_ in lay_hist.items():
+        r.tag("enum:layout:" + k_, v_)
 
 
 # ---------------------------------------------------------------- random / structured cases
@@ -401,8 +415,113 @@ def gen_case(rng, big=False):
     elif mk == "zero":
         mask = [[0] * w for _ in range(h)]
     tr = rng.choice(DYADIC_TRANSFORMS) if rng.random() < 0.5 and (dtype, mdtype) in (("int64", "bool"), ("float64", "bool")) else None
+    layout, mlayout = pick_layouts(rng, dtype, mdtype, tr, mask is not None)
     return dict(kind="grid", conn=rng.choice([4, 8]), dtype=dtype, grid=[[tok(v) for v in row] for row in a.tolist()],
-                mask=mask, mdtype=mdtype, transform=tr, tag=tag, masktag="mask:" + mk)
+                mask=mask, mdtype=mdtype, transform=tr, tag=tag, masktag="mask:" + mk, layout=layout, mlayout=mlayout)
+
+
+def pick_layouts(rng, dtype, mdtype, tr, has_mask):
+    """memory layouts of the raster and of the mask handed to polygonize (the model / oracle see the logical
+    raster).  A C-ordered read-only array stays read-only after ravel(): that is one more numba specialisation
+    of the whole pipeline (~3 s), so it is only drawn for int64 or float64 raster / bool mask / no transform, raster and
+    mask together; every other layout reaches the kernels as a fresh C-ordered copy or view."""
+    layout = G.pick_layout(rng, None)
+    mlayout = G.pick_layout(rng, None, cheap=True) if has_mask else "C"
+    if layout == "readonly":
+        if (dtype, mdtype) in (("int64", "bool"), ("float64", "bool")) and tr is None:
+            mlayout = "readonly" if has_mask else "C"
+        else:
+            layout = rng.choice(["readonlyF"] + G.NUMBA_CHEAP_LAYOUTS)
+    return layout, mlayout
+
+
+# ---------------------------------------------------------------- many regions / lookup-table boundary
+def lookup_profile(a, maskb, conn8):
+    """For the evidence histogram only (never used for a verdict): how the labelling pass of a one-pass
+    W/S(/SW/SE) labelling with a merge table of initial size max(64, nx, ny), doubled or extended to
+    upper+1 on demand, behaves on this raster: number of provisional ids, final table size, how often it
+    grew, whether a growth jumped past twice the size, whether the last slot of the final table holds a
+    merge, whether ids beyond the table exist, whether an already merged id was re-linked."""
+    ny, nx = a.shape
+    v = a.ravel().tolist()
+    m = maskb.ravel().tolist()
+    raw = [0] * (nx * ny)
+    size = max(64, nx, ny)
+    lk = {}
+    region = grown = 0
+    jump = relink = False
+    for ij in range(nx * ny):
+        if not m[ij]:
+            continue
+        i = ij % nx
+        mw = i > 0 and m[ij - 1] and v[ij] == v[ij - 1]
+        rw = raw[ij - 1] if mw else 0
+        ms = ij >= nx and m[ij - nx] and v[ij] == v[ij - nx]
+        rs = raw[ij - nx] if ms else 0
+        if conn8 and ij >= nx:
+            if not mw and i > 0 and m[ij - nx - 1] and v[ij] == v[ij - nx - 1]:
+                mw, rw = True, raw[ij - nx - 1]
+            if not ms and i < nx - 1 and m[ij - nx + 1] and v[ij] == v[ij - nx + 1]:
+                ms, rs = True, raw[ij - nx + 1]
+        if mw and ms:
+            lo, up = min(rw, rs), max(rw, rs)
+            raw[ij] = lo
+            if lo != up:
+                if up >= size:
+                    jump = jump or up + 1 > 2 * size
+                    size = max(up + 1, 2 * size)
+                    grown += 1
+                while True:
+                    prev = lk.get(up, 0)
+                    again = prev != 0 and prev != lo
+                    if again:
+                        relink = True
+                        lo, prev = min(lo, prev), max(lo, prev)
+                    lk[up] = lo
+                    if not again:
+                        break
+                    up = prev
+        elif mw:
+            raw[ij] = rw
+        elif ms:
+            raw[ij] = rs
+        else:
+            region += 1
+            raw[ij] = region
+    return dict(ids=region, size=size, grown=grown, jump=jump, relink=relink, merges=len(lk),
+                last_slot=lk.get(size - 1, 0) != 0, beyond=region >= size,
+                near_last=any(lk.get(size - 1 + d, 0) != 0 for d in (-2, -1, 1, 2)))
+
+
+def profile_tags(pr):
+    tags = ["lookup:ids>=%d" % b for b in (63, 127, 255, 511) if pr["ids"] >= b][-1:] or ["lookup:ids<63"]
+    tags.append("lookup:table=%d" % pr["size"] if pr["size"] in (64, 128, 256, 512, 1024) else "lookup:table=other")
+    tags.append("lookup:grown=%d" % min(pr["grown"], 3))
+    for k in ("jump", "relink", "last_slot", "near_last", "beyond"):
+        if pr[k]:
+            tags.append("lookup:" + k)
+    return tags
+
+
+def gen_lookup(rng, max_cells=1000):
+    """rasters with 60 .. 1000 provisional regions and merges recorded at chosen ids: at and around the last
+    slot of the merge table (63/64/65, 127/128, 255/256 ..., table sizes max(64,nx,ny)*2^k), first merges that
+    jump far beyond twice the table size, merges spread widely, dense re-linking merges (corr_C16.many_raster)"""
+    a, info = G.many_raster(rng, max_cells)
+    h, w = a.shape
+    dtype, mdtype = rng.choice([("int64", "bool"), ("int64", "bool"), ("float64", "bool")])
+    mask = None
+    mk = "none"
+    if rng.random() < 0.15:
+        mk = "rand"
+        mask = [[0 if rng.random() < 0.03 else 1 for _ in range(w)] for _ in range(h)]
+    layout, mlayout = pick_layouts(rng, dtype, mdtype, None, mask is not None)
+    if layout == "readonly":
+        layout = "readonlyF"
+        mlayout = "F" if mask is not None else "C"
+    return dict(kind="grid", conn=rng.choice([4, 8]), dtype=dtype, grid=[[tok(v) for v in row] for row in a.tolist()],
+                mask=mask, mdtype=mdtype, transform=None, tag="lookup:" + info["gen"], masktag="mask:" + mk, layout=layout,
+                mlayout=mlayout, info=info)
 
 
 def gen_wild(rng):
@@ -421,7 +540,8 @@ def gen_wild(rng):
     a = np.array([rng.choice(pool) for _ in range(h * w)], dtype=np.float64).reshape(h, w)
     mask = [[0 if rng.random() < 0.2 else 1 for _ in range(w)] for _ in range(h)] if rng.random() < 0.4 else None
     return dict(kind="grid", conn=rng.choice([4, 8]), dtype=dtype, grid=[[tok(v) for v in row] for row in a.tolist()],
-                mask=mask, mdtype="bool", transform=None, tag="wild:" + mode, masktag="mask:" + ("rand" if mask else "none"), wild=True)
+                mask=mask, mdtype="bool", transform=None, tag="wild:" + mode, masktag="mask:" + ("rand" if mask else "none"), wild=True,
+                layout=G.pick_layout(rng, None, cheap=True), mlayout=G.pick_layout(rng, None, cheap=True))
 
 
 def materialise(c):
@@ -456,10 +576,17 @@ def render(column, polys):
             "|".join(";".join(",".join(f"{frac_tok(p[0])}:{frac_tok(p[1])}" for p in ring) for ring in rings) for rings in polys))
 
 
-def call_public(a, mask, conn, transform):
+def as_dataarray(a, layout):
+    """DataArray over the values of `a` stored under `layout` (no copy afterwards)"""
+    if layout == "xrT" and a.ndim == 2:
+        return xr.DataArray(np.ascontiguousarray(a.T), dims=("dim_1", "dim_0")).transpose("dim_0", "dim_1")
+    return xr.DataArray(G.lay(a, layout))
+
+
+def call_public(a, mask, conn, transform, layout="C", mlayout="C"):
     from xrspatial.experimental.polygonize import polygonize
-    ra = xr.DataArray(a.copy())
-    rm = None if mask is None else xr.DataArray(mask.copy())
+    ra = as_dataarray(a, layout)
+    rm = None if mask is None else as_dataarray(mask, mlayout)
     try:
         col, polys = polygonize(ra, mask=rm, connectivity=conn,
                                 transform=None if transform is None else np.array(transform, dtype=np.float64))
@@ -467,8 +594,10 @@ def call_public(a, mask, conn, transform):
         return "ValueError", str(ex), None
     except Exception as ex:  # noqa: BLE001 -- any other exception on a valid raster is a finding
         return type(ex).__name__, str(ex), None
-    if not np.array_equal(ra.values, a, equal_nan=(a.dtype.kind == "f")):
+    if not np.array_equal(np.asarray(ra.data), a, equal_nan=(a.dtype.kind == "f")):
         return "ok", (col, polys), "the input raster was modified"
+    if rm is not None and not np.array_equal(np.asarray(rm.data), mask, equal_nan=(mask.dtype.kind == "f")):
+        return "ok", (col, polys), "the mask was modified"
     return "ok", (col, polys), None
 
 
@@ -481,6 +610,9 @@ def model_request(a, mask, conn, transform, cmd="polygonize"):
     return " ".join(parts)
 
 
+MODEL_MAX_CELLS_LOOKUP = 1700
+
+
 def check_case(r, c, requests, pending, model=True):
     with guard(r, c):
         _check_case(r, c, requests, pending, model)
@@ -489,8 +621,9 @@ def check_case(r, c, requests, pending, model=True):
 def _check_case(r, c, requests, pending, model=True):
     a, mask = materialise(c)
     conn, tr = c["conn"], c.get("transform")
+    layout, mlayout = c.get("layout", "C"), c.get("mlayout", "C")
     with guard(r, c):
-        status, out, note = call_public(a, mask, conn, tr)
+        status, out, note = call_public(a, mask, conn, tr, layout, mlayout)
     if conn not in (4, 8) or (tr is not None and len(tr) != 6):
         if status != "ValueError":
             r.fail("polygonize:validation", f"connectivity={conn} transform={tr} accepted", c)
@@ -511,7 +644,7 @@ def _check_case(r, c, requests, pending, model=True):
             col0, polys0 = col, polys
         else:
             with guard(r, c):
-                st0, out0, _ = call_public(a, mask, conn, None)
+                st0, out0, _ = call_public(a, mask, conn, None, layout, mlayout)
             if st0 != "ok":
                 r.fail("polygonize:raises", f"polygonize raised {st0}: {out0}", c)
                 return
@@ -543,9 +676,10 @@ def _check_case(r, c, requests, pending, model=True):
         except (ValueError, OverflowError):
             code = 15
         if code:
-            r.fail("polygonize:lossless", CODES[int(code)] + f" (connectivity={conn}, dtype={a.dtype}, shape={a.shape})", c)
-            return
-    if model and a.size <= 200 and not c.get("wildtransform"):
+            r.fail("polygonize:lossless", CODES[int(code)] + f" (connectivity={conn}, dtype={a.dtype}, shape={a.shape}, "
+                   f"raster layout={layout}, mask layout={mlayout if mask is not None else None})", c)
+            # no return: the model comparison below records the disagreement as well
+    if model and a.size <= (MODEL_MAX_CELLS_LOOKUP if c.get("tag", "").startswith("lookup:") else 200) and not c.get("wildtransform"):
         requests.append(model_request(a, mask, conn, tr))
         pending.append((c, render(col, polys)))
         from xrspatial.experimental.polygonize import _calculate_regions
@@ -576,28 +710,61 @@ def run(r, scale=1):
               "connectivity 4 and 8: region array, column and all rings compared exactly with the model and checked by the "
               "rasterisation/area/orientation oracle; random: shapes <= 12x13, lines <= 24, 1x1, 1-4 values, blobs, spirals, "
               "nested rings, pinches, holes touching the border, combs, diagonal walks, int64/int32/uint8/float64/float32, "
-              "mask none / random / border / all / nothing as bool/int/float, dyadic affine transforms; wild (model only): "
+              "mask none / random / border / all / nothing as bool/int/float, dyadic affine transforms; memory layout of raster "
+              "and mask handed to the real code (independently): C, F, transposed view, strided (C / F parent), negative strides, "
+              "read-only, DataArray.transpose -- the model and the oracle see the logical row-major raster; the enumerated "
+              "rasters rotate through the layouts by a hash of their number; lookup: rasters of <= 1000 (thorough 1600) cells "
+              "with 60-1000 provisional regions whose merges sit at and around the last slot of the merge table "
+              "(ids 63/64/65, 127/128, 255/256.. for table sizes max(64,nx,ny)*2^k), first merges far beyond twice the table, "
+              "sparse and dense merges, wide and tall, compared with the model (which carries the table size) and the oracle; "
+              "wild (model only): "
               "NaN, +-inf, nearly equal floats, ints >= 1e5; non-trivial = at least two cells and two symbols")
     requests, pending = [], []
     for c in r.corpus():
         cc = c.get("case", c)
         r.case(cc, nontrivial=True, tags=["corpus"])
         check_case(r, cc, requests, pending)
+    import time
+    t0_ = time.time()
+    lap = {}
+
+    def mark(name):
+        nonlocal t0_
+        lap[name] = round(time.time() - t0_, 1)
+        t0_ = time.time()
+        r.extra["stream_seconds"] = lap
+
     run_enum_stream(r, ENUM_PLAN[r.tier])
     r.exhaustive = True
+    mark("enum")
     for k in range({"quick": 1500, "thorough": 12000}[r.tier] * scale):
         c = gen_case(r.rng, big=(k % 3 == 0))
         a, _ = materialise(c)
         r.case(c, desc=c if k < 2 else None, nontrivial=a.size >= 2 and len(set(a.ravel().tolist())) >= 2,
                tags=[f"dtype:{c['dtype']}", f"conn:{c['conn']}", c["tag"], c["masktag"],
                      "transform" if c["transform"] else "no-transform",
-                     "1xN" if a.shape[0] == 1 else ("Nx1" if a.shape[1] == 1 else "2d")])
+                     "1xN" if a.shape[0] == 1 else ("Nx1" if a.shape[1] == 1 else "2d"),
+                     f"layout:{c['layout']}"] + ([f"mask-layout:{c['mlayout']}"] if c["mask"] is not None else []))
         check_case(r, c, requests, pending)
+    mark("random")
+    # --- many regions: the merge table at and around its size boundaries
+    for k in range({"quick": 400, "thorough": 3000}[r.tier] * scale):
+        c = gen_lookup(r.rng, max_cells={"quick": 1000, "thorough": 1600}[r.tier])
+        a, mask = materialise(c)
+        maskb = np.ones(a.shape, dtype=bool) if mask is None else (np.asarray(mask) != 0)
+        pr = lookup_profile(a, maskb, c["conn"] == 8)
+        r.case(c, desc=dict(c, grid=f"{a.shape[0]}x{a.shape[1]}", mask=None if mask is None else "...", profile=pr) if k < 2 else None,
+               nontrivial=True,
+               tags=[c["tag"], f"dtype:{c['dtype']}", f"conn:{c['conn']}", c["masktag"], f"layout:{c['layout']}"] + profile_tags(pr))
+        check_case(r, c, requests, pending)
+    mark("lookup")
     for k in range({"quick": 40, "thorough": 300}[r.tier] * scale):
         c = gen_case(r.rng)
         c["transform"] = r.rng.choice(WILD_TRANSFORMS)
         c["dtype"], c["mdtype"] = "int64", "bool"
         c["wildtransform"] = True
+        if c["layout"] == "readonly":      # (read-only, transform) would be one more numba specialisation
+            c["layout"], c["mlayout"] = "readonlyF", "F"
         r.case(c, nontrivial=True, tags=["wild-transform"])
         check_case(r, c, requests, pending)
     for k in range({"quick": 300, "thorough": 3000}[r.tier] * scale):
@@ -623,7 +790,9 @@ def run(r, scale=1):
         r.fail("polygonize:validation", "mask of another shape accepted", dict(kind="bad-shape", shape=[2, 3]))
     except ValueError:
         pass
+    mark("wild+validation")
     flush_model(r, requests, pending, "random")
+    mark("model")
     r.assumptions.append("vertex coordinates and transforms in the model-compared streams are integers / dyadic rationals, "
                          "so float64 arithmetic of _transform_points is exact")
     r.trusted.append("numba / numpy semantics of polygonize.py (compared on the generated cases only)")
@@ -640,7 +809,7 @@ def search(r):
     if r.failures:
         return
     for k in range({"quick": 4000, "thorough": 25000}[r.tier]):
-        c = gen_case(r.rng, big=True)
+        c = gen_lookup(r.rng) if k % 8 == 7 else gen_case(r.rng, big=True)
         r.case(c, nontrivial=True, tags=["search"])
         check_case(r, c, requests, pending, model=False)
         if len(r.failures) >= 3:
